@@ -672,7 +672,7 @@ class ProceduralResolver:
 		elif len(known_types) == 1:
 			return self.reflections.from_standard(list).stack(node).extends(known_types[0])
 		else:
-			return self.reflections.from_standard(list).stack(node).extends(self.reflections.from_standard(Union).extends(*known_types))
+			return self.reflections.from_standard(list).stack(node).extends(self.reflections.from_standard(Union).stack(node).extends(*known_types))
 
 	def on_dict(self, node: defs.Dict, items: list[IReflection]) -> IReflection:
 		if len(items) == 0:
